@@ -61,6 +61,10 @@ def run(tier, seed):
             up, down = tc.sig_instance(csig[0], rng), tc.sig_instance(csig[1], rng)
             seqs.append(G.module(up, gen.rnd(rng.randint(2, 9), rng), down, gen.rnd(rng.randint(0, 9), rng), rng) if role == "module"
                         else G.vector(down, up, gen.rnd(rng.randint(0, 7), rng), gen.rnd(rng.randint(2, 9), rng), rng))
+        if role == "vector":      # a vector plasmid that is nothing but its structure (no backbone at all / a single letter of it)
+            for blen in (0, 1):
+                up, down = tc.sig_instance(csig[0], rng), tc.sig_instance(csig[1], rng)
+                seqs.append(G.vector(down, up, gen.rnd(rng.randint(0, 5), rng), gen.rnd(blen, rng), rng))
         for sib in rng.sample(sibs, min(len(sibs), 2 if q else 6)):
             u2, d2 = tc.sig_instance(sib.signature[0], rng), tc.sig_instance(sib.signature[1], rng)
             seqs.append(G.module(u2, gen.rnd(4, rng), d2, gen.rnd(5, rng), rng) if role == "module"
@@ -81,6 +85,12 @@ def run(tier, seed):
         if nm:
             recipes.append({"fn": "typing", "cls": cspec, "seq": gen.rotate(nm, rng.randrange(len(nm))), "gen": True})
         recipes.append({"fn": "typing", "cls": cspec, "seq": gen.mutate(s, rng), "gen": True})
+        if cspec["part"] == "vector":
+            up, down = tc.sig_instance(cspec["sig"][0], rng), tc.sig_instance(cspec["sig"][1], rng)
+            for blen in (0, 1):
+                bare = G.vector(down, up, gen.rnd(rng.randint(0, 4), rng), gen.rnd(blen, rng), rng)
+                if bare:
+                    recipes.append({"fn": "typing", "cls": cspec, "seq": gen.rotate(bare, rng.randrange(len(bare))), "gen": True})
     # (3) characterize on every abstract part base of the kits, and on user hierarchies
     bases = part_bases()
     run.extra["part_bases"] = ["%s.%s" % b for b in bases]
